@@ -313,7 +313,7 @@ func (w *c19World) opChannel() {
 }
 
 func checkC19(run *mon.Run, rng *mon.Rand, thorough bool) {
-	run.Rule = "reference model of the grant rule vs the real hook.BridgeHook wired into the real ophost keeper (message path: hook before store, error aborts) in front of in-store channel / permission stand-ins. Random histories of create / update-metadata / update-challenger over bridges sharing 6 channels and few challengers, with a 29-entry metadata corpus (valid lists, duplicates, unknown fields, differently-cased and duplicate keys, wrong types, non-JSON, invalid UTF-8, >5 KiB) plus generated lists, while channels open, send packets and get taken by strangers. Distinct non-trivial = (operation, outcome class, list length)"
+	run.Rule = "reference model of the grant rule vs the real hook.BridgeHook wired into the real ophost keeper (message path: hook before store, error aborts) in front of in-store channel / permission stand-ins. Random histories of create / update-metadata / update-challenger over bridges sharing 6 channels and few challengers, with a 29-entry metadata corpus (valid lists, duplicates, unknown fields, differently-cased and duplicate keys, wrong types, non-JSON, invalid UTF-8, >5 KiB) plus generated lists, while channels open, send packets and get taken by strangers. Distinct non-trivial = (operation, outcome class, list length) Both directions of the grant rule are asserted; the reference parser declares the documented structure itself."
 	run.Assumptions = []string{"strict decoding is decided with encoding/json (exact-key probe + DisallowUnknownFields)", "one-directional reading: a grant implies the stated channel conditions, and a violated condition implies failure"}
 	for _, c := range []string{"C19.unparsable_metadata_touches_nothing", "C19.grant_conditions_enforced", "C19.exactly_listed_channels_granted", "C19.challenger_change_hands_over_listed_channels"} {
 		run.Declare(c, 10)
